@@ -295,16 +295,18 @@ static fn_t F_VECTOR[] = {{"addfirst", nv2, v_addfirst}, {"addlast", nv2, v_addl
 /* variants 1/2: a rotation is due at this write; in variant 1 the new file can not be opened (its directory is gone) */
 static void lg_rotation_due(ctx_t *c, int v) {
     if (!v) return;
+    if (v == 3) { /* the log file sits on a full device: fprintf() into the stdio buffer works, the flush does not */
+        FILE *f = fopen("/dev/full", "w"); if (f) { if (LG->fp) fclose(LG->fp); LG->fp = f; vf_count("qlog_writes_to_a_full_device", 1); } return; }
     LG->rotateinterval = 1; LG->nextrotate = 1;
     if (v == 1) snprintf(LG->filepathfmt, sizeof(LG->filepathfmt), "/nonexistent-dir-h_lock/x-%%S.log");
     else snprintf(LG->filepathfmt, sizeof(LG->filepathfmt), "%s.rotated", c->path);
 }
-static const char *lg_write(ctx_t *c, int v) { lg_rotation_due(c, v); LG->write(LG, "line"); if (v == 2) { char p[200]; snprintf(p, sizeof p, "%s.rotated", c->path); unlink(p); } return v == 0 ? "ok" : v == 1 ? "rotation-due-open-fails" : "rotation-due"; }
-static const char *lg_writef(ctx_t *c, int v) { lg_rotation_due(c, v); LG->writef(LG, "%d %s", 3, "x"); if (v == 2) { char p[200]; snprintf(p, sizeof p, "%s.rotated", c->path); unlink(p); } return v == 0 ? "ok" : v == 1 ? "rotation-due-open-fails" : "rotation-due"; }
+static const char *lg_write(ctx_t *c, int v) { lg_rotation_due(c, v); LG->write(LG, "line"); if (v == 2) { char p[200]; snprintf(p, sizeof p, "%s.rotated", c->path); unlink(p); } return v == 0 ? "ok" : v == 1 ? "rotation-due-open-fails" : v == 2 ? "rotation-due" : "device-full"; }
+static const char *lg_writef(ctx_t *c, int v) { lg_rotation_due(c, v); LG->writef(LG, "%d %s", 3, "x"); if (v == 2) { char p[200]; snprintf(p, sizeof p, "%s.rotated", c->path); unlink(p); } return v == 0 ? "ok" : v == 1 ? "rotation-due-open-fails" : v == 2 ? "rotation-due" : "device-full"; }
 static const char *lg_flush(ctx_t *c, int v) { (void)v; LG->flush(LG); return "ok"; }
 static const char *lg_duplicate(ctx_t *c, int v) { LG->duplicate(LG, v ? NULL : c->devnull, v == 0); return v ? "NULL-stream" : "stream"; }
 #undef LG
-static fn_t F_LOG[] = {{"write", nv3, lg_write}, {"writef", nv3, lg_writef}, {"flush", nv1, lg_flush}, {"duplicate", nv2, lg_duplicate}, {NULL, NULL, NULL}};
+static fn_t F_LOG[] = {{"write", nv4, lg_write}, {"writef", nv4, lg_writef}, {"flush", nv1, lg_flush}, {"duplicate", nv2, lg_duplicate}, {NULL, NULL, NULL}};
 
 static fn_t *FTAB[NKINDS] = {F_TREE, F_HASH, F_LISTTBL, F_LIST, F_QUEUE, F_STACK, F_GROW, F_VECTOR, F_LOG};
 
